@@ -217,6 +217,44 @@ def _check_main(ctx, rep: Report):
         bad.append("path elements are no longer resolved by getattr / literal_eval item lookup")
     if "(AttributeError, KeyError)" not in src2 or "raise AttributeError" not in src2:
         bad.append("a missing key/attribute along the path is no longer reported as AttributeError (fallback would not apply)")
+    # sibling agreement inside the path grammar: the ["k"] and ['k'] alternatives are the same pattern up to the quote
+    import re._parser as sre
+    pat = None
+    for n_ in ast.walk(ci.node):
+        if isinstance(n_, ast.Assign) and any(ast.unparse(t) == "ATTR_PARSER" for t in n_.targets) and isinstance(n_.value, ast.Call) and n_.value.args \
+                and isinstance(n_.value.args[0], ast.Constant) and isinstance(n_.value.args[0].value, str):
+            pat = n_.value.args[0].value
+    if pat is None:
+        raise AnalysisError("C18.P: ATTR_PARSER pattern not found as a string constant")
+
+    def norm(x):
+        if isinstance(x, sre.SubPattern):
+            return tuple(norm(i) for i in x)
+        if isinstance(x, (list, tuple)):
+            return tuple(norm(i) for i in x)
+        if x in (34, 39):
+            return "Q"
+        return str(x) if not isinstance(x, (int, str, type(None))) else x
+    try:
+        tree = sre.parse(pat)
+    except Exception as e:
+        raise AnalysisError(f"C18.P: ATTR_PARSER does not parse: {e}")
+    alts = []
+
+    def find(x):
+        for op, av in x:
+            if op == sre.SUBPATTERN:
+                find(av[3])
+            elif op == sre.BRANCH and not alts:
+                alts.extend(av[1])
+            elif op in (sre.MAX_REPEAT, sre.MIN_REPEAT):
+                find(av[2])
+    find(tree)
+    quoted = [a_ for a_ in alts if any(op == sre.LITERAL and av in (34, 39) for op, av in a_)]
+    if len(quoted) != 2:
+        raise AnalysisError(f"C18.P: expected two quoted-item alternatives in ATTR_PARSER, found {len(quoted)}")
+    if norm(quoted[0]) != norm(quoted[1]):
+        bad.append("the [\"key\"] and ['key'] alternatives of the path grammar are different patterns: a path accepted with one kind of quotes is rejected with the other (e.g. a[\"k\"].b)")
     rep.oblige("C18.P", "Alias._attr_path / __lookup_attr_path", not bad, "; ".join(bad))
     for b in bad:
         rep.violate(Violation("C18.P", f"C18.P|{b[:50]}", f"Alias: {b}", f"{m[0].module.relpath}:{m[0].node.lineno}", "Alias._attr_path"))
